@@ -20,7 +20,10 @@ func EngineRun(p *Program, funcs map[string]jet.Func) (jetrun.Outcome, jet.VarMa
 	case "nil":
 		opts = append(opts, jet.WithSafeWriter(nil))
 	case "custom":
-		opts = append(opts, jet.WithSafeWriter(func(w io.Writer, b []byte) { w.Write(CustomEscape(b)) }))
+		opts = append(opts, jet.WithSafeWriter(mkSafeWriter(CustomEscape)))
+	}
+	if p.Dev {
+		opts = append(opts, jet.InDevelopmentMode())
 	}
 	first := src
 	if len(p.Late) > 0 {
@@ -33,15 +36,22 @@ func EngineRun(p *Program, funcs map[string]jet.Func) (jetrun.Outcome, jet.VarMa
 		}
 	}
 	s, loader := jetrun.NewSet(first, opts...)
-	s.AddGlobal("swCustom", jet.SafeWriter(func(w io.Writer, b []byte) {
-		f, _ := safeWriter("swCustom")
-		w.Write(f(b))
-	}))
+	swCustomFn, _ := safeWriter("swCustom")
+	swCustom := mkSafeWriter(swCustomFn)
+	s.AddGlobal("swCustom", swCustom)
 	for k, r := range p.Globals {
+		if r.T == "swcustom" {
+			s.AddGlobal(k, swCustom)
+			continue
+		}
 		s.AddGlobal(k, Build(r))
 	}
 	vars := jet.VarMap{}
 	for k, r := range p.Vars {
+		if r.T == "swcustom" {
+			vars.Set(k, swCustom)
+			continue
+		}
 		v := Build(r)
 		if v == nil {
 			vars[k] = reflect.Value{}
@@ -108,6 +118,14 @@ func EngineRun(p *Program, funcs map[string]jet.Func) (jetrun.Outcome, jet.VarMa
 	return jetrun.Exec(t, vars, data), vars, src
 }
 
+// mkSafeWriter: the Set's custom escaper and the user-supplied pipeline writer are made by one constructor
+// (two closures of the same function literal: same code, different behaviour).
+//
+//go:noinline
+func mkSafeWriter(f func([]byte) []byte) jet.SafeWriter {
+	return func(w io.Writer, b []byte) { w.Write(f(b)) }
+}
+
 // brokenWriter accepts left bytes and fails from then on.
 type brokenWriter struct{ left int }
 
@@ -131,10 +149,18 @@ func ModelRun(p *Program, setup func(*Interp)) (res Result, discard string) {
 	}
 	vars := map[string]interface{}{}
 	for k, r := range p.Vars {
+		if r.T == "swcustom" {
+			vars[k] = fnValue{"swCustom"}
+			continue
+		}
 		vars[k] = Build(r)
 	}
 	globals := map[string]interface{}{"swCustom": fnValue{"swCustom"}}
 	for k, r := range p.Globals {
+		if r.T == "swcustom" {
+			globals[k] = fnValue{"swCustom"}
+			continue
+		}
 		globals[k] = Build(r)
 	}
 	var data interface{}
